@@ -700,3 +700,27 @@ PROPS["C08"]["level"] = 'other'
 PROPS["C08"]["level_text"] = "Partial proof + correspondence. Proved for all bundles of well-formed coin spends with matching declared puzzle hashes, without INTERNED_GENERATOR: run_spendbundle(css, L) accepts (and its signature check passes) iff run_block_generator2 accepts the quoted generator that lists the same spends in the same order under L + 20 + 2*cost_per_byte; the two summaries agree up to the mempool visitor's eligibility bits (spends, fee, locks, amounts, condition cost equal), native cost = bundle cost + 20 + 2*cost_per_byte and execution cost differs by the quote's 20; the predicted generator length equals the serialised length (generator_length, with clvm_bytes_len from the translator). bundle_path_eq_block_path states the same for build_generator's own (reversed) order, the block path's puzzle runs re-indexed and the spend records coming out in reverse order (runSpendbundle_reverse: the order of the spends does not matter to run_spendbundle, via the C01 refinement of the spend loop and the C06 permutation lemmas; needs a signature verdict that is independent of the order of the pairs). INTERNED_GENERATOR mode and the compressed serialisations remain correspondence-only, hence level other. All serialisation modes and both builders are compared on every generated bundle by correspondence (byte-exact generators, both block paths)."
 PROPS["C08"]["level_note"] = 'Trusted: clvmr interpreter and serialisers (oracle values / byte comparison); harness; model = code on the cases run.'
 PROPS["C08"]["technique"] = "Lean 4 theorems relating the mempool-path and block-path models (same order and build_generator's reversed order) + translator for clvm_bytes_len + differential correspondence incl. byte-exact generator serialisation"
+
+# ---- C09: coin-spend recovery and bundle additions (merged from the prover) ----
+PROPS["C09"]["theorems"] = ['ChiaModel.C09.additions_removals_spec', 'ChiaModel.C09.removals_spec', 'ChiaModel.C09.additions_spec', 'ChiaModel.C09.lookup_spec', 'ChiaModel.C09.coinspends_rebuild', 'ChiaModel.C09.coinspends_rebuild_reversed', 'ChiaModel.C09.bundle_additions', 'ChiaModel.C09.bundle_additions_of_limit', 'ChiaModel.C02.native_invariants']
+PROPS["C09"]["open"] = ['excluded by hypothesis, recorded findings (known_findings.txt): coinspends_rebuild* assume every puzzle reveal and solution of the generator output serialises plainly within 2 000 000 bytes (revealsFit fits2MB; marker @reveal-over-2MB - above that get_coinspends_for_trusted_block substitutes the default program and the clause is FALSE for the code); bundle_additions assumes no condition has a pair in the opcode position (noPairOpcode; marker @pair-opcode - there SpendBundle::additions returns Err on a bundle run_spendbundle accepts)', "interpreter is external: the puzzle runs are one oracle shared by validation and the helpers; SpendBundle::additions runs the puzzles with ClvmFlags::empty() where validation uses the flags' dialect - bundle_additions is about bundles whose runs coincide under both (compared with the real code on every case); the rebuilt generator's run is modelled as the value of its quote at cost 20 (as in C08)", 'get_coinspends_with_conditions_for_trusted_block is not modelled (same recovery loop plus a condition listing)']
+PROPS["C09"]["level"] = 'proof'
+PROPS["C09"]["level_text"] = "Proof. For every block the native-path model accepts (any flags, limit <= the block maximum, generator output made of byte strings): additions_and_removals' model returns exactly the removals (coin id, parent, puzzle hash, amount) of the validated spends in order (removals_spec) and exactly the created coins with the same hints in spend and condition order (additions_spec - the scanner's hint rule is proved equal to parse_args'); get_puzzle_and_solution_for_coin's model finds every removed coin and returns a puzzle whose tree hash is the coin's puzzle hash (lookup_spec); get_coinspends_for_trusted_block's model (getCoinspends: extract_n::<5> failures skipped, 32-byte parent, parse_amount, puzzle hash = tree hash, Program::from_clvm(..).unwrap_or_default() with the 2 MB size test as parameter) succeeds with coin spends that describe the generator's spend list element by element, in order (Recovered: parent, reveal, canonical amount, solution; lengths = plain serialised lengths) and name the validated coins, and both the quoted generator listing them in order (coinspends_rebuild) and the generator build_generator makes of them, which lists them in REVERSE order (coinspends_rebuild_reversed, puzzle runs re-indexed, signature verdict independent of the order of the pairs), are accepted by the native-path model - every flag set, INTERNED_GENERATOR included, since only the spend loop is compared - with the same spend records (every field; reversed order in the second case), fee, locks, amounts, condition cost and signature verdict; execution_cost and cost differ exactly by the generator-run cost against the quote's 20 and by the two size costs. SpendBundle::additions' model (bundleAdditions: own 11 000 000 000 countdown charging the puzzle runs and 1 350 000 per created coin, coin id of the DECLARED coin as parent, opcode atoms of length != 1 skipped, (Bytes32, (u64, rest)) destructuring with clvm-traits' decode_number) on every bundle the run_spendbundle model accepts with cost <= 11 000 000 000 returns exactly the created coins of the validated conditions in spend and condition order (bundle_additions; the query's countdown is proved to stay above validation's, so no extra cost hypothesis). Exact exclusions = the two recorded findings: reveals or solutions whose plain serialisation exceeds 2 MB (hypothesis revealsFit, marker @reveal-over-2MB) and conditions with a pair in the opcode position (hypothesis noPairOpcode, marker @pair-opcode); on both the models reproduce the code's deviation (non-vacuity examples in Props/C09.lean). The models are tied to the code by correspondence: every helper is compared with the prescription on every accepted block / bundle, and the driver also runs the helper models themselves (scanner=agrees, #model=agrees). Two further defects found by this check were repaired (known_findings.txt)."
+PROPS["C09"]["level_note"] = 'Trusted: clvmr (oracle values), harness; model = code on the cases run.'
+PROPS["C09"]["technique"] = 'Lean 4 theorems relating the trusted-helper models (additions_and_removals, get_puzzle_and_solution_for_coin, get_coinspends_for_trusted_block, SpendBundle::additions) to the full-validation models, reusing the C08 block/bundle bridge and the C01/C06 permutation lemmas + differential correspondence against the validated conditions'
+
+# ---- C04 / C10: cost decomposition on the execution paths ----
+PROPS["C04"]["theorems"] = PROPS["C04"]["theorems"] + ["ChiaModel.C04.native_cost_decomposition", "ChiaModel.C04.runSpendbundle_cost_decomposition"]
+PROPS["C10"]["theorems"] = PROPS["C10"]["theorems"] + ["ChiaModel.C10.interned_consensus_cost"]
+
+# ---- C18: invariant, abstraction and reload theorems (merged from the builder) ----
+PROPS["C18"]["theorems"] = ['ChiaModel.C18.map_refinement', 'ChiaModel.C18.keys_unique', 'ChiaModel.C18.hashes_unique', 'ChiaModel.C18.history_refinement', 'ChiaModel.C18.history_refinement_empty', 'ChiaModel.C18.root_hash', 'ChiaModel.C18.check_good', 'ChiaModel.C18.proof_valid', 'ChiaModel.C18.proofOf_stored', 'ChiaModel.C18.proof_valid_after_recompute', 'ChiaModel.C18.struct_ok_decides', 'ChiaModel.C18.struct_ok_empty', 'ChiaModel.C18.struct_ok_linv', 'ChiaModel.C18.inv_preserved', 'ChiaModel.C18.abs_commutes', 'ChiaModel.C18.abs_defined', 'ChiaModel.C18.integrity_of_inv', 'ChiaModel.C18.history_refinement_l2', 'ChiaModel.C18.history_success_agrees', 'ChiaModel.C18.hashes_commute', 'ChiaModel.C18.hashes_never_fails', 'ChiaModel.C18.hash_inv_preserved', 'ChiaModel.C18.history_hashes_ok', 'ChiaModel.C18.root_after_hashes', 'ChiaModel.C18.proof_commutes', 'ChiaModel.C18.authenticated_map', 'ChiaModel.C18.reload_caches', 'ChiaModel.C18.reload', 'ChiaModel.C18.fail_unchanged', 'ChiaModel.C18.fail_unchanged_all', 'ChiaModel.C18.fail_unchanged_batch_validation', 'ChiaModel.C18.batch_commit_succeeds', 'ChiaModel.C18.insert_succeeds', 'ChiaModel.C18.linv_preserved_insert', 'ChiaModel.C18.linv_preserved_upsert', 'ChiaModel.C18.inserts_upserts_history', 'ChiaModel.C18.reload_partial', 'ChiaModel.C18.block_format_roundtrip', 'ChiaModel.C18.former_witness_batch_rejected', 'ChiaModel.C18.former_witness_upsert_rejected', 'ChiaModel.C18.former_witness_failed_batch_unchanged']
+PROPS["C18"]["gen_theorems"] = []
+PROPS["C18"]["open"] = ['no open proof obligation of DESIGN 6 C18 remains. Not proved (and not needed by the theorems): the first executable well-formedness `wf` (several independent traversals of the blocks) is equivalent to structOk && hashesOk - the driver evaluates wf, LInv, structOk and the refinement on every state (tags NEWFAIL:wf / linv / struct, ABSFAIL)']
+PROPS["C18"]["level"] = 'proof'
+PROPS["C18"]["level_text"] = 'Proof (two-level Lean model, refinement proved for every operation) + correspondence. L1 (plain trees, unbounded): every insert/upsert/delete/batch insert acts on the key->value content exactly like a plain map when it succeeds and leaves the tree unchanged when it fails (map_refinement); keys and leaf hashes stay pairwise distinct (keys_unique, hashes_unique); by induction over ANY finite history the content equals that of a plain map subjected to the same successful operations (history_refinement); lazy hash recomputation on a tree satisfying the hash invariant stores the independently recomputed Merkle root and cleans every node (root_hash); every key has an inclusion proof that is valid and ends in that root, also when read off the stored hashes (proof_valid, proof_valid_after_recompute). L2 (index-level model of MerkleBlob: block array, free list, key->index and hash->index caches; byte-exact): the strengthened invariant - ONE index-annotated tree is stored below index 0 with consistent child and parent pointers, every index below the blob length is a node of that tree or on the free list exactly once (every live node is reachable from the root), both caches hold exactly the leaves, keys and leaf hashes distinct - is decidable (structOk, struct_ok_decides; evaluated by the driver on every state), holds for the empty blob and is preserved by EVERY operation: insert at any location, upsert, delete, batch insert, calculate_lazy_hashes, successful or failed (inv_preserved); it implies the local invariant LInv (struct_ok_linv) and check_integrity = ok (integrity_of_inv). The abstraction commutes with every operation: the operation succeeds on the blob exactly when it succeeds on the tree, and abs (op s) = opL1 (abs s) (abs_commutes). Hence for ANY finite history from the empty blob the reached state satisfies the invariant, passes check_integrity, its abstraction is the tree reached by the same history on the tree model, keys and leaf hashes are pairwise distinct and the content equals that of a plain map subjected to the same successful operations (history_refinement_l2, history_success_agrees). A failed operation leaves the blob unchanged (fail_unchanged_all; calculate_lazy_hashes cannot fail, hashes_never_fails; a validated batch cannot fail, batch_commit_succeeds). Stored hashes: calculate_lazy_hashes on blocks = HT.recompute on the abstraction with stored hashes (hashes_commute); the hash invariant (a clean internal node stores the Merkle hash of its subtree and has only clean descendants) is preserved by every operation - marking the lineage dirty suffices (hash_inv_preserved, history_hashes_ok); get_proof_of_inclusion on the blocks = the proof read off the abstraction (proof_commutes). End to end (authenticated_map): after any finite history from the empty blob followed by calculate_lazy_hashes, get_root_hash returns the Merkle root recomputed independently over the content and, for every key of the content, get_proof_of_inclusion succeeds with a proof that is valid and ends in that root (root_after_hashes). Reload: MerkleBlob::new(bytes s) has the same blocks and bytes, caches with the same content, the same free indexes up to order, the same abstraction and satisfies the invariant (reload, reload_caches, block_format_roundtrip). The three histories on which the code violated the property before the repairs are regression theorems (former_witness_*). Every model output is compared with the real MerkleBlob after every op of every history (blob bytes by SHA-256).'
+PROPS["C18"]["level_note"] = 'Trusted: Lean kernel + standard axioms; the hand-written L2 model = code only on the histories run (differential correspondence, blob bytes compared after every op); KeyId/ValueId i64 modelled by their 64-bit patterns; MerkleBlob::new decodes blocks lazily, the model decodes all (equal on every blob the operations produce, block_format_roundtrip); `reload` assumes every block field fits the byte format (BlockOk: indexes < 2^32, 32-byte hashes, 64-bit keys/values); hashes are abstract byte strings and internalHash an uninterpreted function (no collision-resistance argument is made or needed: the theorems compare the stored root with the recomputed one). Repaired in /repo: 934ac687 (batch_insert), fbd3f8c2 (upsert) - recorded as `fixed:` lines; no known finding remains for C18.'
+PROPS["C18"]["technique"] = 'Lean 4 two-level model (byte-exact index level + plain trees); representation relation (index-annotated tree stored in the block array) proved inductive and the abstraction proved to commute with every operation; Lean theorems for the tree level, the byte format, reload and failed-operation atomicity; differential correspondence on operation histories'
+PROPS["C18"]["rule"] = "operation histories, one per line (`C18 hist op;op;...`), ops ins (auto / left:<key> / right:<key>, incl. unknown reference keys), ups, del, batch n, hashes; after EACH op the real MerkleBlob and the Lean index-level model print: Ok/Err/panic, SHA-256 of the exact blob bytes, sorted key/values, check_integrity, reload (MerkleBlob::new(bytes): loads, same key/values, integrity ok); after `hashes` the root hash and per key proof.valid() and proof.root == root. Generated: the histories on which the code broke the property before commits 934ac687/fbd3f8c2 and neighbours; exhaustive histories of length <= 2 (quick, + 1500 random of length 3) / <= 3 (thorough, first op restricted to ops that can succeed on the empty blob) over an alphabet of 64 ops on 3 keys / 3 hashes; batch sizes 0..9 on trees of 0,1,2,3,5,8,17 leaves; insert n, delete down to 0/1/2 leaves in random order, insert again (free-index reuse, promotion to the root); random histories of 1-60 ops over 6 keys / 8 hashes and over random i64 keys (negative included) with random 32-byte hashes, incl. batches with present/repeated keys and hashes and upserts to another leaf's hash. `C18 prop <history>[ @dupbatch][ @upshash]` lines evaluate the PROPERTY on the real code against a BTreeMap oracle (integrity, content, failed-op-unchanged, reload, root = independent recomputation and proofs); the model side prints the prescription; the markers (computed from the history alone) name the two classes of operation repaired by those commits. non-trivial = a distinct `hist` line"
+PROPS["C18"]["trivial"] = '^(-|bad-op|integrity=ok content=eq.*)$'
+PROPS["C18"]["trusted"] = ['the L2 model mirrors the Rust code by construction and is validated by the differential runs only (every observable, blob bytes by SHA-256, after every op of every history)']
